@@ -6,12 +6,12 @@ HOOK_COMMITS = ["096ae72", "f3cf827"]
 
 checks = {
  "C01": ("simmon", "exploration", "3 C01", "runtime monitoring: water-balance oracle on every sub-step and day of generated runs (in-process probes)",
-   "Holds on every sub-step and day of the generated runs (residual <= 1e-9 cm); sampled inputs, not all inputs. Closure is checked at sub-step level, day level (with the daily flux, so lost sub-steps show), between days, and against the reported counters; a daily groundwater update may rewrite the water below the table only when the groundwater input gives another level than the day before (plateaus of a series, constant levels: nothing may touch the water); groundwater table at the surface (0 dm) included."),
+   "Holds on every sub-step and day of the generated runs (residual <= 1e-9 cm); sampled inputs, not all inputs. Closure is checked at sub-step level, day level (with the daily flux, so lost sub-steps show), between days, and against the reported counters; a daily groundwater update may rewrite the water below the table only when the groundwater input gives another level than the day before (plateaus of a series, constant levels: nothing may touch the water); groundwater table at the surface (0 dm) included; the reported percolation-minus-supply counter is compared with the real boundary flux (open finding F36: root uptake from the groundwater layer booked as groundwater supply)."),
  "C02": ("simmon", "exploration", "3 C02", "runtime monitoring: N-balance oracle with clamp accounting on every N sub-step and day of generated runs",
    "Holds on every N sub-step and day of the generated runs (residual minus clamp-created N <= tolerance), incl. deposition/irrigation input and the instability flag; the real transport routine is additionally run on copies of the live state with tillage-like mixed top-soil N and demand above the layers' content (uptake limit engaged); 12 % of the cases with automatic management, half of the automatic-harvest cases rewritten after a probe run so that a tillage postponed by the standing crop meets the next scheduled one; permanent crops after annual crops, the crop before them mostly a legume taken off green; first crops with the N-content functions 7-9 (project-supplied parameter file); sampled inputs."),
  "C06": ("simmon", "exploration", "3 C06", "runtime monitoring: bound and finiteness assertions on the live state every day + NaN scan of result files",
    "Every layer every day within [WP/3, FC + capillary increment], below 1 and not above the pore volume the layer had after input; every float of the run state finite; the real water routine is additionally run for whole days on copies of the live state with sub-step counts hostile to floating point (49, 93, 98 ...) and layers filled to pore volume; injected air-dry and nearly full states; upper bound also against the field capacity of a reference run with forced daily re-evaluation of the parameters; sampled inputs."),
- "C07": ("simmon", "exploration", "3 C07", "runtime monitoring: pool/counter bookkeeping around every N-routine call, once-per-day crediting per sub-step, kernel calls of the real mineralisation routine",
+ "C07": ("simmon", "exploration", "3 C07", "runtime monitoring: pool/counter bookkeeping around every N-routine call (incl. the day a permanent stand dies back and sprouts again: the pools gain no more than the crop gives up), all cumulative N counters incl. N2O from denitrification, once-per-day crediting per sub-step, kernel calls of the real mineralisation routine",
    "Non-negativity, pool+counter conservation around mineralisation/tillage, fertiliser organic inputs equal the applied amounts, uptake/fixation credited only on sub-step 1 and never beyond the day's gain of the fixation counter (also for a grass ley that follows a legume taken off green); sampled inputs."),
  "C08": ("simmon", "exploration", "3 C08", "runtime monitoring: ET ordering / cap / root-zone assertions at the ET probe every day",
    "0 <= ETa+T <= ETp <= cap, uptake only within min(root depth, groundwater) and <= available water, stress ratios in [0,1], on every day of the generated runs over the five ET methods; polar latitudes, series without measured radiation, groundwater table at the surface (0 dm)."),
@@ -32,9 +32,9 @@ checks = {
  "C14": ("simmon", "exploration", "3 C14", "runtime monitoring: probe-and-abort read-back of the effective configuration from the real reader for generated file/line/default combinations, plus full runs with decoy file values",
    "Every scalar key (numeric, text, on/off, enum) in random subsets of file and line, numbers on the line also zero-padded / signed / in exponent form / with bare decimal point, unknown keys, missing file, two argument orders per case: effective value = line, else file, else default; full runs confirm the line value in run state and result files."),
  "C04": ("simmon", "exploration", "3 C04", "runtime monitoring: on every simulated day the weather arrays the model uses are compared at the probe with the generator's truth table for that calendar date; fault cases (incomplete weather) must end with an error",
-   "Three layouts, leap years, year changes, series starting early, sentinels incl. year boundaries, sunshine gaps of two or three days (the marker itself must never be consumed), station-line altitude / CO2, wind floor as consumed by Penman-Monteith, monthly precipitation correction; incomplete inputs (ends early, gap, missing year, starts late): ten open findings where the readers' errors are dropped, one open finding for a sentinel at the edge of the loaded year range."),
+   "Three layouts, leap years, year changes, series starting early, sentinels incl. year boundaries, sunshine gaps of two or three days (the marker itself must never be consumed), station-line altitude / CO2, wind floor as consumed by Penman-Monteith, monthly precipitation correction by the calendar month of the date (leap years), header-driven CSV files with permuted / unknown / alias-named columns; incomplete inputs (ends early, gap, missing year, starts late): ten open findings where the readers' errors are dropped, one open finding for a sentinel at the edge of the loaded year range."),
  "C10": ("simmon", "exploration", "3 C10", "runtime monitoring: exactly-once / ordering checker over the management event log of real runs against a reference reader of the generated schedule, plus state-jump assertions with amounts from the fertiliser table",
-   "Fertilisation, tillage, irrigation, sowing, harvest: each scheduled action inside the period appears exactly once, in order, on its due day; pre-start actions ignored; irrigation water and N enter that day's infiltration / top layer; fertiliser pools change by the table amounts; 20% of cases with automatic management switches."),
+   "Fertilisation, tillage, irrigation, sowing, harvest: each scheduled action inside the period appears exactly once, in order, on its due day; pre-start actions ignored; irrigation water and N enter that day's infiltration / top layer; fertiliser pools change by the table amounts (organic part taken before the volatilisation loss); 20% of cases with automatic management switches."),
  "C16": ("simmon", "exploration", "3 C16", "runtime monitoring: sowing / harvest days from the management event log and every automatic irrigation / N application observed at the probes are checked against the generated rotation and automatic-management table",
    "Rotation order, crop code and harvest year of every crop record; fixed dates hit exactly; automatic sowing inside its window and after the previous harvest, harvest not after the latest date, irrigation only in the stage window and not above the daily maximum, automatic N >= 0; all 16 switch combinations; permanent crops followed by themselves; every fourth case rewritten around the harvest day observed in a probe run (fixed sowing right after a triggered harvest)."),
  "C13": ("pairmon", "exploration", "3 C13", "runtime monitoring: differential paired runs of the real model on one generated project written in two encodings; result files compared byte for byte",
